@@ -493,10 +493,72 @@ def image_words(ctx, R):
             return
 
 
+def path_algebra(ctx, R):
+    """the pure path algebra of FatPath (get_parts, str, name / suffix / stem, parent, joinpath, with_name, relative_to)
+    against Shell/PathAlg.v, on segment lists over names, dots, empty strings and slashes"""
+    from nobodd.path import FatPath
+    rng = ctx.rng
+    class FakeFs:
+        pass
+    fake = FakeFs()
+    atoms = ['a', 'b.txt', 'c.tar.gz', '.hidden', 'x y', 'Dir', '.', '..', 'é', 'n.', '']
+    def seg():
+        k = rng.randint(0, 4)
+        body = '/'.join(rng.choice(atoms) for _ in range(k))
+        return rng.choice(['', '', '/', '//']) + body + rng.choice(['', '', '/'])
+    cases = [([], [], 'n'), ([''], [''], ''), (['/'], ['/'], 'x'), (['/a/b'], ['/a'], 'c'), (['a/b', 'c'], ['a'], 'q.r'), (['/a//b/', '', 'c/'], ['/a/b'], 'z'),
+             (['/'], ['a'], 'w'), (['a'], ['/'], 'w'), (['/a/b.tar.gz'], ['/a', 'b.tar.gz'], 'n.ew'), (['.'], ['.'], 'k'), (['..', 'a'], ['..'], 'k'),
+             (['/a/b'], ['/a/b'], 'k'), (['/a/b'], ['/a/b/c'], 'k'), (['/.x'], [], '.y'), (['/a/b'], ['/A'], 'k')]
+    for _ in range(2500 if ctx.thorough else 500):
+        segs = [seg() for _ in range(rng.randint(0, 3))]
+        if rng.random() < 0.5 and segs:
+            # an `other` that is a prefix of the path (relative_to succeeds), spelled as one or several segments
+            try:
+                pp = list(FatPath(fake, *segs)._parts)
+            except ValueError:
+                pp = []
+            k = rng.randint(0, len(pp))
+            pre = pp[:k]
+            other = ['/'.join(pre) or ('/' if pre == [''] else '')] if rng.random() < 0.5 else [('/' if x == '' and i == 0 else x) for i, x in enumerate(pre)]
+        else:
+            other = [seg() for _ in range(rng.randint(0, 2))]
+        cases.append((segs, other, rng.choice(['n', 'new.name', '', 'a/b', '.k'])))
+    got = R.batch('path_alg', [[list(sg), list(o), nm] for sg, o, nm in cases], chunk=200)
+    T = lib.as_text
+    for (segs, other, nm), g in zip(cases, got):
+        try:
+            p = FatPath(fake, *segs)
+        except ValueError:
+            continue            # a component that is not a valid name: the constructor refuses (FatNames / C11)
+        def attempt(f):
+            try:
+                r = f()
+                return list(r._parts) if isinstance(r, FatPath) else r
+            except (ValueError, TypeError) as e:
+                return None
+        real = [list(p._parts), str(p), p.name, p.suffix, p.stem, attempt(lambda: p.parent), attempt(lambda: p.joinpath(*other)),
+                attempt(lambda: p.with_name(nm)), attempt(lambda: p.relative_to(*other)) if other else 'skip', p.is_absolute()]
+        model = [[T(x) for x in g[0]], T(g[1]), T(g[2]), T(g[3]), T(g[4]), [T(x) for x in g[5]], [T(x) for x in g[6]],
+                 ([T(x) for x in g[7][0]] if g[7] else None), ([T(x) for x in g[8][0]] if g[8] else None), bool(g[9])]
+        labels = ['_parts', 'str', 'name', 'suffix', 'stem', 'parent', 'joinpath', 'with_name', 'relative_to', 'is_absolute']
+        ctx.case(('path-alg', tuple(segs), tuple(other), nm), len(real[0]) > 1, 'path-algebra')
+        for lab, a, b in zip(labels, real, model):
+            if a == 'skip':
+                continue
+            if lab in ('joinpath', 'with_name', 'relative_to') and a is None and b is not None:
+                # the real constructor also validates names (lfn_valid): a refusal for that reason is not the algebra's business
+                continue
+            if a != b:
+                _viol(ctx, 'sh.model/path-algebra', f'FatPath(fs, *{segs!r}).{lab}' + (f'({other!r})' if lab in ('joinpath', 'relative_to') else f'({nm!r})' if lab == 'with_name' else '')
+                      + f' = {a!r}, Shell/PathAlg.v says {b!r}', dict(api='path-alg', segs=segs, other=other, name=nm, what=lab))
+                return
+
+
 def run(ctx):
     rng = ctx.rng
     R = ctx.runner('Shell')
     image_words(ctx, R)
+    path_algebra(ctx, R)
     worker = S.Worker()
     t0 = time.time()
     budget = 600 if ctx.thorough else 75
